@@ -410,9 +410,14 @@ impl IntoLower for ast::FnCall {
     type Output = ir::Expression;
 
     fn into_lower(&self, ctx: &Context) -> Result<Self::Output, Error> {
-        let function_name = &self.callee.value;
+        // a definition of the program shadows a built-in of the same name, as it does for
+        // the analyzer
+        let function_name = match &self.callee.symbol {
+            Some(ast::Symbol::Function(name)) => name.as_str(),
+            _ => "",
+        };
 
-        match function_name.as_str() {
+        match function_name {
             "min_utxo" => {
                 if self.args.len() != 1 {
                     return Err(Error::InvalidAst(format!(
@@ -479,7 +484,7 @@ impl IntoLower for ast::FnCall {
                     }
                     Err(_) => Err(Error::InvalidAst(format!(
                         "unknown function: {}",
-                        function_name
+                        self.callee.value
                     ))),
                 }
             }
